@@ -231,6 +231,33 @@ func VerifC19URL() {
 	vObserve(u.RawQuery)
 }
 
+func init() { vRegister("VerifC19URLNumbers", VerifC19URLNumbers) }
+
+// VerifC19URLNumbers: the numeric options survive the URL round trip bit for bit. Fractions are a concrete
+// table (float formatting and parsing run on concrete values): short ones, ones that need all 17 significant
+// digits, the smallest and largest magnitudes; the node count is symbolic.
+func VerifC19URLNumbers() {
+	fracs := []float64{0.005, 0, 0.25, 0.0123456789, 0.1 + 0.2, 1.0 / 3, 5e-324, 1.7976931348623157e308, 1e21, 123456789.125}
+	cfg := defaultConfig()
+	cfg.NodeFraction = fracs[vChoice("nf", len(fracs))]
+	cfg.EdgeFraction = fracs[vChoice("ef", len(fracs))]
+	cfg.NodeCount = []int{-1, 0, 7, 1 << 40, -1 << 63, 1<<63 - 1}[vChoice("nodecount", 6)]
+	u, _ := cfg.makeURL(vMustURL("http://x/ui/?nf=9&ef=9&nodecount=3"))
+	back := defaultConfig()
+	if err := back.applyURL(u.Query()); err != nil {
+		vAssert(false, "C19.url.apply: a URL produced from a configuration is rejected")
+		return
+	}
+	vAssert(back.NodeFraction == cfg.NodeFraction, "C19.url.fraction: the node fraction changed in the URL round trip")
+	vAssert(back.EdgeFraction == cfg.EdgeFraction, "C19.url.fraction: the edge fraction changed in the URL round trip")
+	vAssert(back.NodeCount == cfg.NodeCount, "C19.url.numbers: a numeric option changed in the URL round trip")
+	// and a second conversion gives the same URL
+	u2, _ := back.makeURL(vMustURL("http://x/ui/"))
+	u1, _ := cfg.makeURL(vMustURL("http://x/ui/"))
+	vAssert(u1.RawQuery == u2.RawQuery, "C19.url.stable: converting the restored configuration gives a different URL")
+	vObserve(u.RawQuery)
+}
+
 func init() { vRegister("VerifC19Resave", VerifC19Resave) }
 
 // VerifC19Resave: saving a configuration under an existing name stores the
